@@ -20,6 +20,7 @@ import ArcSwapModel.Tie.LibLoad
 import ArcSwapModel.Tie.LibLoadFull
 import ArcSwapModel.Tie.LibSwap
 import ArcSwapModel.Tie.Sites
+import ArcSwapModel.Inv.Hist
 
 /-!
 # C03 — loads are linearizable (partial: the paths on which the reader itself reads the cell)
@@ -271,5 +272,21 @@ theorem C03_load_window_partial (cfg : Cfg) (c : Nat) (adv : List (Shared × Boo
 /-- non-vacuity: a fast-path load against a quiet environment returns what it read -/
 example : ∃ s : Shared, EnvOk 0 s := by
   refine ⟨{ cells := fun _ => some 5, nodes := fun _ => { envelope := .ptr 0 } }, rfl, fun _ => ⟨0, rfl⟩⟩
+
+/-- **what the cell holds is the latest write (partial)**: along every execution that satisfies the
+    ledger's assumptions and has raised no fault, the pointer in a container denotes the object
+    whose identity heads the container's history.  With `C03_load_window_partial` (a load returns a
+    pointer it read from this very cell during this very call): the value a load returns was the
+    stored value at the instant of that read; and since the history only grows at the front
+    (`C04_history_grows_by_writes`), a load that starts after a write has returned reads that write
+    or a later one. -/
+theorem C03_cell_holds_latest_write_partial (K N T : Nat) (hK : 0 < K) (cfg : M.Cfg)
+    (progs : Nat → List (String × M.Op)) (sched : List (Nat × Bool))
+    (he : M.EnvRun0 K N T (M.State.initial cfg progs) sched)
+    (hf : (M.run (M.State.initial cfg progs) sched).sh.fault = none) (c p : Nat)
+    (hc : (M.run (M.State.initial cfg progs) sched).sh.cells c = some p) :
+    ∃ rest, (M.run (M.State.initial cfg progs) sched).sh.hist c =
+      (M.run (M.State.initial cfg progs) sched).sh.idOf p :: rest :=
+  (M.cellHist_run K N T hK cfg progs sched he hf c p hc).2
 
 end C03
